@@ -238,6 +238,11 @@ def c05_cases(rng, tier):
     cases.append(case([P(3), op("COM"), P(4000), op("ALOC"), op("COME")], sols=RICH_SOLS, mem=[1] * 100))
     cases.append(case([P(2), op("COM"), P(5000), op("ALOC"), op("COME")], sols=RICH_SOLS, mem=[1] * 100))
     cases.append(case([P(2), op("COM"), P(5), op("COME")], stack=full[:-1], sols=RICH_SOLS))
+    # parent memory + children's memories around the limit (each side alone within it)
+    for pm in (0, 1, 240, 241, MEM_LIMIT - 1, MEM_LIMIT):
+        for b in (1, 2):
+            for ca in (0, 1, 5000, 5120):
+                cases.append(case([P(b), op("COM"), P(ca), op("ALOC"), op("POP"), op("COME")], sols=RICH_SOLS, mem=[1] * pm))
     for b in (-1, 0, 1, 2, 7, 4097, 1 << 40, I64_MAX, I64_MIN):
         cases.append(case([P(b), op("COM"), op("HLT")], sols=RICH_SOLS))
     # jump distances incl. i64 extremes
@@ -421,6 +426,14 @@ def c07_cases(rng, tier):
                     cases.append(case(prog, cost=(c, ()), limit=lim, sols=RICH_SOLS))
         for table in (((com_oc, 0),), ((com_oc, U64_MAX),), ((push_oc, 1 << 62),)):
             cases.append(case(prog, cost=(1, table), limit=U64_MAX, sols=RICH_SOLS))
+    # children whose gas adds up to just below / exactly / above 2^64 while the parent has spent 0 or 1 (zero-cost prefix)
+    pop_oc, come_oc = _by_short["POP"]["opcode"], _by_short["COME"]["opcode"]
+    for breadth, per in ((2, 1 << 63), (2, (1 << 63) - 1), (4, 1 << 62), (3, (1 << 64) // 3 + 1), (3, (1 << 64) // 3), (16, 1 << 60), (1, U64_MAX)):
+        for push_c in (0, 1):
+            for com_c in (0, 1):
+                for lim in (U64_MAX, U64_MAX - 1, 1 << 63):
+                    table = ((push_oc, push_c), (com_oc, com_c), (come_oc, 0), (pop_oc, per))
+                    cases.append(case([P(breadth), op("COM"), op("POP"), op("COME")], cost=(0, table), limit=lim, sols=RICH_SOLS))
     # loops: backward jumps and repeats under small limits
     loop = [P(0), P(1), op("ADD"), op("DUP"), P(5), op("LT"), P(-7), op("SWAP"), op("JMPIF")]
     rep = [P(4), P(1), op("REP"), op("REPC"), op("POP"), op("REPE")]
@@ -541,6 +554,16 @@ def c10_cases(rng, tier):
     # compute inside a repeat loop: children inherit the repeat state
     cases.append(case([P(2), P(1), op("REP"), P(2), op("COM"), op("REPC"), P(1), op("ALOC"), op("STO"), op("COME"), op("REPE")],
                       sols=RICH_SOLS, limit=100000))
+    # children that leave one of their own repeat loops early (by a jump / by halting), inside a parent loop whose counter
+    # they read first; breadths above the number of workers, so that several children share a worker
+    for b in (3, 17, 40, 300):
+        read = [op("REPC"), P(1), op("ALOC"), op("STO")]
+        by_jump = read + [P(5), P(1), op("REP"), P(2), P(1), op("JMPIF"), op("REPE"), op("COME")]
+        by_halt = read + [P(5), P(1), op("REP"), op("DUP"), P(2), op("MOD"), op("HLTIF"), op("REPE"), op("COME")]
+        counted = read + [P(3), P(0), op("REP"), op("REPC"), P(1), op("ALOC"), op("STO"), P(2), P(1), op("JMPIF"), op("REPE"), op("COME")]
+        for body in (by_jump, by_halt, counted):
+            for cnt, up in ((1, 1), (2, 0)):
+                cases.append(case([P(cnt), P(up), op("REP"), P(b), op("COM")] + body + [op("REPE")], stack=[7], sols=RICH_SOLS, limit=U64_MAX))
     # larger breadths
     for b in (50, 1000, 4097):
         cases.append(case([P(b), op("COM"), P(1), op("ALOC"), op("STO"), op("COME")], sols=RICH_SOLS, limit=U64_MAX, maxb=5000))
@@ -583,6 +606,17 @@ def c11_cases(rng, tier):
     for s_ in ("KRNG", "KREX"):
         for st in ([], [0], [1, 0], [5, 1, 0], [-1, 1, 0], [1, 2, 3, 9, 1, 0], [1, 2, 1, 1, 0]):
             cases.append(case([op(s_)], stack=st, mem=[0] * 8, sols=RICH_SOLS, entries=ents))
+    # several reads in one program: the same contract / key / count asked of the pre- and the post-state view in both
+    # orders, and the same read twice (an implementation that remembers answers must remember per view)
+    def args(s_, key, n, addr):
+        return [P(w) for w in ((ext if s_.endswith("EX") else []) + key + [len(key), n, addr])]
+    for s1 in ("KRNG", "PKRNG", "KREX", "PKREX"):
+        for s2 in ("KRNG", "PKRNG", "KREX", "PKREX"):
+            for key, n in (([1], 2), ([0], 1), ([1, 2], 3), ([I64_MAX], 2), ([9], 1)):
+                prog = args(s1, key, n, 0) + [op(s1)] + args(s2, key, n, 20) + [op(s2)]
+                c = case(prog, stack=[33], mem=[-5] * 40, sols=RICH_SOLS, entries=ents, index=0)
+                cases.append(c)
+                oracles.append(as_oracle(c, "o_state"))
     # the other solution's contract (index 1)
     for s_ in ("KRNG", "PKRNG"):
         c = case([op(s_)], stack=[1, 1, 2, 0], mem=[0] * 12, sols=RICH_SOLS, entries=ents, index=1)
